@@ -5,17 +5,17 @@
 (* over the item alphabet.  On every state TLC checks the design-level     *)
 (* theorems of AttrNorm.tla and prints one REPLAY case per combination of  *)
 (* declared type x default kind x written x ATTLIST layout, carrying the   *)
-(* document text (rendered by AttrSurface.Render) and the expected set of  *)
+(* document text (rendered by AttrNormSurface.Render) and the expected set of  *)
 (* effective attributes.                                                   *)
 (***************************************************************************)
-EXTENDS AttrSurface, TLC, Json, SequencesExt
+EXTENDS AttrNormSurface, TLC, Json, SequencesExt
 
 CONSTANTS MaxItems,   \* literals have at most this many items
           FullLen,    \* literals up to this length get the full combination matrix, longer ones a reduced one
           McTypes     \* declared types of the full matrix (a subset of AttTypes)
 
 \* a ' ' TAB LF CR (CR LF arises from CR followed by LF) &#32; &#9; &#10; &#13; &#65; &lt; &amp; &e1; &e2; &e3;
-\* with e1 = "<CR><LF>x ", e2 = "a&#10;b", e3 = "&e1;<TAB>z" (AttrSurface.McEnts)
+\* with e1 = "<CR><LF>x ", e2 = "a&#10;b", e3 = "&e1;<TAB>z" (AttrNormSurface.McEnts)
 \* (a tuple, not a set: TLC does not compare records of different shapes)
 Alphabet ==
   << CI(97), CI(32), CI(9), CI(10), CI(13),
